@@ -290,7 +290,14 @@ static void check_joint(Verdicts &V, const Group &G, std::vector<Party *> &P, in
 		Snap &s = P[i]->snap[ph];
 		if (s.threw) { V.viol("exception", ph, "honest party's protocol call threw " + s.exc, J().kv("party", (long long)i)); all_ok = false; }
 		else if (!s.called) { all_ok = false; }
-		else if (!s.ret) { V.viol("ret-false", ph, "protocol call of an honest party returned false although at most t parties deviate", J().kv("party", (long long)i).kv("qual", setstr(s.qual)).kv("log_tail", shorten(P[i]->err[ph].str(), 1500))); all_ok = false; }
+		else if (!s.ret) {
+			// more precise when the other honest parties excluded this party from QUAL
+			bool excluded = false; size_t by = 0;
+			for (size_t j : H) { const Snap &o = P[j]->snap[ph]; if (j != i && o.called && o.ret && std::find(o.qual.begin(), o.qual.end(), i) == o.qual.end()) { excluded = true; by = j; } }
+			if (excluded) V.viol("honest-not-in-qual", ph, "an honest party is missing from QUAL (its own call returned false)", J().kv("at_party", (long long)by).kv("missing", (long long)i).kv("qual", setstr(P[by]->snap[ph].qual)).kv("log_tail", shorten(P[i]->err[ph].str(), 1200)));
+			else V.viol("ret-false", ph, "protocol call of an honest party returned false although at most t parties deviate", J().kv("party", (long long)i).kv("qual", setstr(s.qual)).kv("log_tail", shorten(P[i]->err[ph].str(), 1500)));
+			all_ok = false;
+		}
 	}
 	if (!all_ok) return;
 	V.reached = true;
